@@ -43,3 +43,13 @@ void harness_create_loop_internal(void) {
     if (r == CIF_DUP_ITEMNAME && open0 && g_write_steps > 1) REACH("dup-name-nested-after-writes"); if (r == CIF_RESERVED_LOOP) REACH("reserved"); if (r == CIF_INVALID_HANDLE) REACH("invalid-handle");
     if (r == CIF_MEMORY_ERROR) REACH("oom");
 }
+
+void harness_set_value(void) {
+    cif_tp *cif = &the_cif; cif->db = (sqlite3 *)&g_n; the_container.cif = cif; the_container.id = 1;
+    sql_state();
+    cif_value_tp *val = nondet_int() ? malloc(sizeof *val) : NULL;
+    unsigned lost0 = g_lost_writes, dur0 = g_durable_writes; int open0 = g_tx_open;
+    int r = cif_container_set_value(&the_container, a_name, val);
+    POST(r == CIF_OK || g_undo_failed || (g_tx_open == open0 && g_durable_writes == dur0 && g_lost_writes - lost0 == g_write_steps), "C05 a failed set_value leaves the database as it was");
+    if (r == CIF_OK) REACH("set"); if (r != CIF_OK && g_write_steps > 0 && !g_undo_failed) REACH("failed-after-writes"); if (open0) REACH("refused-inside-transaction");
+}
